@@ -20,7 +20,11 @@ def main():
         smt.CONFIRM_WAIT = 4.0
     try:
         return mod.run(tier, seed)
-    except (core.EngineError, ValueError) as e:
+    except (core.EngineError, ValueError, KeyError, IndexError, AssertionError) as e:
+        # (KeyError/IndexError: the term graph of a restructured tree lacks an observation the check expects)
+        if not isinstance(e, (core.EngineError, ValueError)):
+            traceback.print_exc()
+            e = '%s: %s (unexpected shape of the executor output)' % (type(e).__name__, e)
         # the executor (or the lowering of its term graph) cannot encode the current tree: run the property's replay battery as a safety net
         try:
             from props import fallback
